@@ -599,6 +599,11 @@ def engine_random(run, shard, thorough: bool) -> None:
         thumbs = G.WRITABLE + ('NONE',)
         thumb = thumbs[(i // len(G.WRITABLE)) % len(thumbs)] if i % 3 == 0 else None
         case = G.gen_case(rng, fmt=fmt, thumb=thumb, max_size=64)
+        if i % 500 == 499:
+            # unusual sizes: eight and more mipmap levels, long thin strips (one frame, so that the run stays short)
+            case['w'], case['h'] = ((256, 1), (1, 512), (128, 128), (256, 64), (2048, 1), (1, 4096), (128, 2))[(i // 500) % 7]
+            case.update(frames=1, depth=1, cube=False, flags=case['flags'] & ~G.ENVMAP)
+            run.count('large_textures')
         run_roundtrip(run, case, 'roundtrip', sample=i < 3)
 
 
@@ -866,7 +871,7 @@ def main(run, shard=(0, 1)) -> None:
     probe.report(run)
     probe.check_reached(run)
     run.extra['formats'] = list(G.WRITABLE)
-    run.require('lazy_shuffled_loads', 'lazy_frames_after_refused_or_self_copy', 'saves', 'reads', 'real_file_passes', 'repeated_saves', 'legacy_version_with_resources', 'resaves', 'frames_compared', 'thumbnails_compared', 'generated_mipmaps_checked', 'nearest_filter_regenerations',
+    run.require('lazy_shuffled_loads', 'lazy_frames_after_refused_or_self_copy', 'large_textures', 'saves', 'reads', 'real_file_passes', 'repeated_saves', 'legacy_version_with_resources', 'resaves', 'frames_compared', 'thumbnails_compared', 'generated_mipmaps_checked', 'nearest_filter_regenerations',
                 'index_probes', 'resource_sets_compared', 'sheets_compared', 'one_wide_textures', 'cubemaps_with_sphere',
                 'cubemaps_without_sphere', 'volumetric_textures', 'reduced_precision_main_format', 'handmade_files_read',
                 'sweep_images')
